@@ -57,6 +57,9 @@ def check_text(text, script, cfg, audit=False):
     for lvl in LEVELS:
         a = X.compile_one(text, lvl, False)
         b = X.compile_one(text, lvl, True)
+        if 'timeout' in (a.kind, b.kind):
+            info['inconclusive'] = 'compile_timeout'
+            continue
         if a.key() != b.key():
             failures.append(('accept:%s/%s' % (a.key()[-1], b.key()[-1]),
                              {'level': lvl, 'plain': repr(a), 'dbg': repr(b)}))
